@@ -46,10 +46,10 @@ inductive G where
   | opt (a : G)
   /-- nonterminal -/
   | ref (n : Nat)
-  /-- `get_cache / set_cache` around `g`, table `c`, key = remaining length; `errs` tells
+  /-- `get_cache / set_cache` around the parser `Δ c`, table `c`, key = remaining length; `errs` tells
       whether failures are cached too (`parse_primary`, `parse_expr`) or only successes
       (`parse_method_call`, whose `?` returns leave before `set_cache`) -/
-  | memo (c : Nat) (errs : Bool) (g : G)
+  | memo (c : Nat) (errs : Bool)
   /-- semantic action -/
   | map (f : Tree → Tree) (g : G)
   /-- succeed only if `f v`; otherwise fail *at the rest position* with `msg` -/
@@ -145,77 +145,77 @@ def recoverStep (m : RecMode) (ts e : List Tok) (msg : String) : List Tok × Lis
 
 /-! ### the memo-free interpreter -/
 
-def runP (Γ : Nat → G) : Nat → G → List Tok → R × List Diag
+def runP (Γ Δ : Nat → G) : Nat → G → List Tok → R × List Diag
   | 0, _, _ => (.fuel, [])
   | _+1, .tok k, ts => (expTok k ts, [])
   | _+1, .identVal s, ts => (expIdent s ts, [])
   | _+1, .eps v, ts => (.ok ts v, [])
   | f+1, .seq a b, ts =>
-    match runP Γ f a ts with
+    match runP Γ Δ f a ts with
     | (.ok r va, da) =>
-      match runP Γ f b r with
+      match runP Γ Δ f b r with
       | (.ok r2 vb, db) => (.ok r2 (Tree.seq [va, vb]), da ++ db)
       | (x, db) => (x, da ++ db)
     | (x, da) => (x, da)
   | f+1, .alt a b, ts =>
-    match runP Γ f a ts with
+    match runP Γ Δ f a ts with
     | (.ok r v, da) => (.ok r v, da)
     | (.fuel, da) => (.fuel, da)
     | (.err e1 m1, da) =>
-      match runP Γ f b ts with
+      match runP Γ Δ f b ts with
       | (.err e2 m2, db) => (if e1.length > e2.length then .err e2 m2 else .err e1 m1, da ++ db)
       | (x, db) => (x, da ++ db)
   | f+1, .opt a, ts =>
-    match runP Γ f a ts with
+    match runP Γ Δ f a ts with
     | (.ok r v, da) => (.ok r v, da)
     | (.fuel, da) => (.fuel, da)
     | (.err _ _, da) => (.ok ts Tree.none, da)
-  | f+1, .ref n, ts => runP Γ f (Γ n) ts
-  | f+1, .memo _ _ g, ts => runP Γ f g ts
+  | f+1, .ref n, ts => runP Γ Δ f (Γ n) ts
+  | f+1, .memo c _, ts => runP Γ Δ f (Δ c) ts
   | f+1, .map fn g, ts =>
-    match runP Γ f g ts with
+    match runP Γ Δ f g ts with
     | (.ok r v, d) => (.ok r (fn v), d)
     | x => x
   | f+1, .check p msg g, ts =>
-    match runP Γ f g ts with
+    match runP Γ Δ f g ts with
     | (.ok r v, d) => (if p v then .ok r v else .err r msg, d)
     | x => x
   | f+1, .ifTok ks a b, ts =>
     match firstReal ts with
     | some (t, rest) =>
       if ks.contains t.kind then
-        match runP Γ f a rest with
+        match runP Γ Δ f a rest with
         | (.ok r v, d) => (.ok r (Tree.seq [.leaf t, v]), d)
         | x => x
-      else runP Γ f b ts
-    | none => runP Γ f b ts
+      else runP Γ Δ f b ts
+    | none => runP Γ Δ f b ts
   | f+1, .ifEof a b, ts =>
     match ts with
-    | [] => runP Γ f a []
-    | _ :: _ => runP Γ f b ts
+    | [] => runP Γ Δ f a []
+    | _ :: _ => runP Γ Δ f b ts
   | f+1, .recover m g, ts =>
-    match runP Γ f g ts with
+    match runP Γ Δ f g ts with
     | (.ok r v, d) => (.ok r v, d)
     | (.fuel, d) => (.fuel, d)
     | (.err e msg, d) =>
       let (nxt, dd) := recoverStep m ts e msg
       (.ok nxt Tree.none, d ++ dd)
   | f+1, .catchErr g, ts =>
-    match runP Γ f g ts with
+    match runP Γ Δ f g ts with
     | (.ok r v, d) => (.ok r v, d)
     | (.fuel, d) => (.fuel, d)
     | (.err e _, d) => (.ok ts (caught e), d)
   | f+1, .dep a test b, ts =>
-    match runP Γ f a ts with
+    match runP Γ Δ f a ts with
     | (.ok r va, da) =>
       if test va then
-        match runP Γ f b r with
+        match runP Γ Δ f b r with
         | (.ok r2 vb, db) => (.ok r2 (Tree.seq [va, vb]), da ++ db)
         | (x, db) => (x, da ++ db)
       else (.ok r (Tree.seq [va, Tree.none]), da)
     | x => x
   | f+1, .emit fn g, ts =>
-    match runP Γ f g ts with
+    match runP Γ Δ f g ts with
     | (.ok r v, d) => (.ok r v, d ++ (fn v).toList)
     | x => x
   | f+1, .reslice ks inner, ts =>
@@ -225,7 +225,7 @@ def runP (Γ : Nat → G) : Nat → G → List Tok → R × List Diag
       match body with
       | [] => (.ok rest (Tree.seq [Tree.none, ev, sliceNode body]), [])
       | _ :: _ =>
-        match runP Γ f inner body with
+        match runP Γ Δ f inner body with
         | (.ok _ v, d) => (.ok rest (Tree.seq [v, ev, sliceNode body]), d)
         | (.fuel, d) => (.fuel, d)
         | (.err _ msg, d) => (.err rest msg, d)
@@ -233,7 +233,7 @@ def runP (Γ : Nat → G) : Nat → G → List Tok → R × List Diag
     match takeUntil ks ts with
     | (rest, _, e) => (.ok rest (match e with | some t => Tree.leaf t | none => Tree.none), [])
   | f+1, .prepend s g, ts =>
-    match runP Γ f g ts with
+    match runP Γ Δ f g ts with
     | (.err e msg, d) => (.err e (s ++ msg), d)
     | x => x
 
@@ -258,85 +258,85 @@ def MSt.clear (s : MSt) : MSt :=
   { memo := [], evals := [],
     worst := Nat.max s.worst ((s.evals.map (fun p => s.evals.count p)).foldl Nat.max 0) }
 
-def runM (Γ : Nat → G) : Nat → G → List Tok → MSt → R × List Diag × MSt
+def runM (Γ Δ : Nat → G) : Nat → G → List Tok → MSt → R × List Diag × MSt
   | 0, _, _, s => (.fuel, [], s)
   | _+1, .tok k, ts, s => (expTok k ts, [], s)
   | _+1, .identVal x, ts, s => (expIdent x ts, [], s)
   | _+1, .eps v, ts, s => (.ok ts v, [], s)
   | f+1, .seq a b, ts, s =>
-    match runM Γ f a ts s with
+    match runM Γ Δ f a ts s with
     | (.ok r va, da, s1) =>
-      match runM Γ f b r s1 with
+      match runM Γ Δ f b r s1 with
       | (.ok r2 vb, db, s2) => (.ok r2 (Tree.seq [va, vb]), da ++ db, s2)
       | (x, db, s2) => (x, da ++ db, s2)
     | x => x
   | f+1, .alt a b, ts, s =>
-    match runM Γ f a ts s with
+    match runM Γ Δ f a ts s with
     | (.ok r v, da, s1) => (.ok r v, da, s1)
     | (.fuel, da, s1) => (.fuel, da, s1)
     | (.err e1 m1, da, s1) =>
-      match runM Γ f b ts s1 with
+      match runM Γ Δ f b ts s1 with
       | (.err e2 m2, db, s2) => (if e1.length > e2.length then .err e2 m2 else .err e1 m1, da ++ db, s2)
       | (x, db, s2) => (x, da ++ db, s2)
   | f+1, .opt a, ts, s =>
-    match runM Γ f a ts s with
+    match runM Γ Δ f a ts s with
     | (.ok r v, da, s1) => (.ok r v, da, s1)
     | (.fuel, da, s1) => (.fuel, da, s1)
     | (.err _ _, da, s1) => (.ok ts Tree.none, da, s1)
-  | f+1, .ref n, ts, s => runM Γ f (Γ n) ts s
-  | f+1, .memo c errs g, ts, s =>
+  | f+1, .ref n, ts, s => runM Γ Δ f (Γ n) ts s
+  | f+1, .memo c errs, ts, s =>
     match s.memo.get c ts.length with
     | some v => (v, [], s)
     | none =>
-      match runM Γ f g ts { s with evals := (c, ts.length) :: s.evals } with
+      match runM Γ Δ f (Δ c) ts { s with evals := (c, ts.length) :: s.evals } with
       | (.fuel, d, s1) => (.fuel, d, s1)
       | (.err e msg, d, s1) =>
         (.err e msg, d, if errs then { s1 with memo := (c, ts.length, .err e msg) :: s1.memo } else s1)
       | (v, d, s1) => (v, d, { s1 with memo := (c, ts.length, v) :: s1.memo })
   | f+1, .map fn g, ts, s =>
-    match runM Γ f g ts s with
+    match runM Γ Δ f g ts s with
     | (.ok r v, d, s1) => (.ok r (fn v), d, s1)
     | x => x
   | f+1, .check p msg g, ts, s =>
-    match runM Γ f g ts s with
+    match runM Γ Δ f g ts s with
     | (.ok r v, d, s1) => (if p v then .ok r v else .err r msg, d, s1)
     | x => x
   | f+1, .ifTok ks a b, ts, s =>
     match firstReal ts with
     | some (t, rest) =>
       if ks.contains t.kind then
-        match runM Γ f a rest s with
+        match runM Γ Δ f a rest s with
         | (.ok r v, d, s1) => (.ok r (Tree.seq [.leaf t, v]), d, s1)
         | x => x
-      else runM Γ f b ts s
-    | none => runM Γ f b ts s
+      else runM Γ Δ f b ts s
+    | none => runM Γ Δ f b ts s
   | f+1, .ifEof a b, ts, s =>
     match ts with
-    | [] => runM Γ f a [] s
-    | _ :: _ => runM Γ f b ts s
+    | [] => runM Γ Δ f a [] s
+    | _ :: _ => runM Γ Δ f b ts s
   | f+1, .recover m g, ts, s =>
-    match runM Γ f g ts s with
+    match runM Γ Δ f g ts s with
     | (.ok r v, d, s1) => (.ok r v, d, s1)
     | (.fuel, d, s1) => (.fuel, d, s1)
     | (.err e msg, d, s1) =>
       let (nxt, dd) := recoverStep m ts e msg
       (.ok nxt Tree.none, d ++ dd, s1)
   | f+1, .catchErr g, ts, s =>
-    match runM Γ f g ts s with
+    match runM Γ Δ f g ts s with
     | (.ok r v, d, s1) => (.ok r v, d, s1)
     | (.fuel, d, s1) => (.fuel, d, s1)
     | (.err e _, d, s1) => (.ok ts (caught e), d, s1)
   | f+1, .dep a test b, ts, s =>
-    match runM Γ f a ts s with
+    match runM Γ Δ f a ts s with
     | (.ok r va, da, s1) =>
       if test va then
-        match runM Γ f b r s1 with
+        match runM Γ Δ f b r s1 with
         | (.ok r2 vb, db, s2) => (.ok r2 (Tree.seq [va, vb]), da ++ db, s2)
         | (x, db, s2) => (x, da ++ db, s2)
       else (.ok r (Tree.seq [va, Tree.none]), da, s1)
     | x => x
   | f+1, .emit fn g, ts, s =>
-    match runM Γ f g ts s with
+    match runM Γ Δ f g ts s with
     | (.ok r v, d, s1) => (.ok r v, d ++ (fn v).toList, s1)
     | x => x
   | f+1, .reslice ks inner, ts, s =>
@@ -346,7 +346,7 @@ def runM (Γ : Nat → G) : Nat → G → List Tok → MSt → R × List Diag ×
       match body with
       | [] => (.ok rest (Tree.seq [Tree.none, ev, sliceNode body]), [], s)
       | _ :: _ =>
-        match runM Γ f inner body s.clear with
+        match runM Γ Δ f inner body s.clear with
         | (.ok _ v, d, s1) => (.ok rest (Tree.seq [v, ev, sliceNode body]), d, s1)
         | (.fuel, d, s1) => (.fuel, d, s1)
         | (.err _ msg, d, s1) => (.err rest msg, d, s1)
@@ -354,7 +354,7 @@ def runM (Γ : Nat → G) : Nat → G → List Tok → MSt → R × List Diag ×
     match takeUntil ks ts with
     | (rest, _, e) => (.ok rest (match e with | some t => Tree.leaf t | none => Tree.none), [], s)
   | f+1, .prepend x g, ts, s =>
-    match runM Γ f g ts s with
+    match runM Γ Δ f g ts s with
     | (.err e msg, d, s1) => (.err e (x ++ msg), d, s1)
     | y => y
 
